@@ -485,9 +485,18 @@ func (e *Engine) convert(st *State, v Val, from, to types.Type, cur string, pos 
 			// []byte(s): an array whose elements are the character codes of s
 			arr := e.newArr(st, sl.Elem(), true, "bytes")
 			delete(e.inputArrs, arr)
-			k := e.fresh("k", "Int")
-			_ = k
-			e.fact("(forall ((k Int)) (! (=> (and (<= 0 k) (< k (str.len " + x.T + "))) (= (select " + st.arrs[arr][".v"] + " k) (str.to_code (str.at " + x.T + " k)))) :pattern ((select " + st.arrs[arr][".v"] + " k))))")
+			if lit, isLit := smtStringLiteral(x.T); isLit && len(lit) <= 64 {
+				// a short literal: ground facts (a quantifier over str.at makes unrelated obligations undecidable in practice)
+				for i := 0; i < len(lit); i++ {
+					e.fact(fmt.Sprintf("(= (select %s %d) %d)", st.arrs[arr][".v"], i, lit[i]))
+				}
+				return SliceV{Arr: arr, Off: "0", Len: fmt.Sprint(len(lit)), Nil: "false"}
+			}
+			// any other string: the bytes are a deterministic function of the string (no quantifier over str.at: it makes
+			// unrelated obligations of the same function undecidable in practice); the link between a byte and the
+			// character at its index is not modelled
+			e.declUF("uf_bytes", "(String) (Array Int Int)")
+			st.arrs[arr][".v"] = "(uf_bytes " + x.T + ")"
 			return SliceV{Arr: arr, Off: "0", Len: "(str.len " + x.T + ")", Nil: "false"}
 		}
 	case SliceV:
@@ -562,4 +571,18 @@ func wholeValueArrayAlloc(x *ssa.Alloc) bool {
 		}
 	}
 	return true
+}
+
+// smtStringLiteral recognises a plain ASCII SMT-LIB string literal and returns its characters.
+func smtStringLiteral(t string) (string, bool) {
+	if len(t) < 2 || t[0] != '"' || t[len(t)-1] != '"' {
+		return "", false
+	}
+	body := t[1 : len(t)-1]
+	for i := 0; i < len(body); i++ {
+		if body[i] == '"' || body[i] == '\\' || body[i] < 0x20 || body[i] > 0x7e {
+			return "", false
+		}
+	}
+	return body, true
 }
